@@ -140,6 +140,14 @@ impl Arena {
     }
 }
 
+#[cfg(lasso_verif)]
+impl Arena {
+    /// Verification hook (read-only): `(address, capacity, used)` of every block, in vector order
+    pub(crate) fn verif_blocks(&self) -> Vec<(usize, usize, usize)> {
+        self.buckets.iter().map(Bucket::verif_raw).collect()
+    }
+}
+
 impl Default for Arena {
     fn default() -> Self {
         Self::new(
